@@ -290,6 +290,24 @@ class Gen:
             dups = [n for n, k in sorted(Counter(x for x in c['sym_names'].get(m['i'], []) if x).items()) if k >= 2]
             for n in dups[:3]:
                 first.append(['sym_by_name', m['i'], n])
+        # whole-table ops (used by the struct-cache two-file runs: decode everything of one file, then of another)
+        d = self.dw
+        if d and d.get('unit_meta'):
+            offs = [m['off'] for m in d['unit_meta']][:3]
+            first.append(['lineprog_seq', offs])
+            first.append(['die_iter', offs[0], None])
+            first.append(['cu_iter', None])
+            if 'loc_iter' in self.kinds:
+                first.append(['loc_iter', None])
+            if 'rng_iter' in self.kinds:
+                first.append(['rng_iter', None])
+            if 'tu_iter' in self.kinds:
+                first.append(['tu_iter', None])
+        if d and d.get('cfi'):
+            for k in sorted(d['cfi']):
+                first.append(['cfi_entries', k])
+                if d['cfi'][k]:
+                    first.append(['cfi_decoded_seq', k, list(range(min(4, d['cfi'][k])))])
         for m in self.by_cls('GNUVerDefSection', 'GNUVerNeedSection'):
             for pol in ('eager', 'lazy-after-next', 'lazy-at-end', 'skip'):
                 first.append(['ver_iter', m['i'], pol, None])
@@ -333,17 +351,19 @@ class Gen:
                 out.append(o)
         for o in first:
             add(o)
-        for tt, inst, ka, kb in complete + sampled:
-            if len(out) >= cap:
-                break
-            self._inst = inst
-            try:
-                o = self.draw_session(tt, force=(ka, kb))
-            except Exception:
-                o = None
-            finally:
-                self._inst = None
-            add(o)
+        for rnd in range(3):
+            # several rounds: the same (instance, pair of query kinds) with other arguments (first/last/middle index ...)
+            for tt, inst, ka, kb in (complete + sampled if rnd == 0 else complete):
+                if len(out) >= cap:
+                    break
+                self._inst = inst
+                try:
+                    o = self.draw_session(tt, force=(ka, kb))
+                except Exception:
+                    o = None
+                finally:
+                    self._inst = None
+                add(o)
         return out
 
     def _unit(self, with_flat=True):
